@@ -347,7 +347,60 @@ func hasScaleConversion(p *packages.Package, n ast.Node) bool {
 	return found
 }
 
-func decodeCase(p *packages.Package, cc *ast.CaseClause) *encCase {
+// encodingHelperValue evaluates a call of a niladic helper method of
+// Encoding for the encoding constant name: the constant returned by the case
+// of the helper's switch that lists name, else the constant returned after
+// the switch (or by its default clause).
+func encodingHelperValue(p *packages.Package, call *ast.CallExpr, name string) (int64, bool) {
+	f, ok := calleeOf(p, call).(*types.Func)
+	if !ok {
+		return 0, false
+	}
+	sig := f.Type().(*types.Signature)
+	if sig.Recv() == nil || !isNamed(sig.Recv().Type(), p.PkgPath, "Encoding") {
+		return 0, false
+	}
+	var fd *ast.FuncDecl
+	for _, file := range p.Syntax {
+		for _, d := range file.Decls {
+			if x, ok := d.(*ast.FuncDecl); ok && p.TypesInfo.Defs[x.Name] == f {
+				fd = x
+			}
+		}
+	}
+	if fd == nil || fd.Body == nil {
+		return 0, false
+	}
+	retConst := func(stmts []ast.Stmt) (int64, bool) {
+		if len(stmts) == 1 {
+			if r, ok := stmts[0].(*ast.ReturnStmt); ok && len(r.Results) == 1 {
+				return constInt(p, r.Results[0])
+			}
+		}
+		return 0, false
+	}
+	cases := encSwitch(p, fd)
+	if cc := cases[name]; cc != nil {
+		return retConst(cc.Body)
+	}
+	// not listed: default clause, else the statement after the switch
+	var def *ast.CaseClause
+	ast.Inspect(fd.Body, func(n ast.Node) bool {
+		if cc, ok := n.(*ast.CaseClause); ok && cc.List == nil {
+			def = cc
+		}
+		return true
+	})
+	if def != nil {
+		return retConst(def.Body)
+	}
+	if n := len(fd.Body.List); n > 0 {
+		return retConst(fd.Body.List[n-1:])
+	}
+	return 0, false
+}
+
+func decodeCase(p *packages.Package, cc *ast.CaseClause, name string) *encCase {
 	ec := &encCase{pos: cc.Pos()}
 	if len(cc.Body) != 1 {
 		ec.why = "case body is not a single return"
@@ -365,6 +418,12 @@ func decodeCase(p *packages.Package, cc *ast.CaseClause) *encCase {
 			if k, ok := constInt(p, be.Y); ok && constOf(p, be.X) == nil {
 				ec.offset, ec.hasOffset = k, true
 				n++
+			} else if call, ok := unparen(be.Y).(*ast.CallExpr); ok && len(call.Args) == 0 {
+				// the offset comes from a helper method of Encoding that switches on the receiver
+				if k, ok := encodingHelperValue(p, call, name); ok {
+					ec.offset, ec.hasOffset = k, true
+					n++
+				}
 			}
 		}
 		return true
@@ -504,7 +563,7 @@ func ruleQuality(c *Ctx) {
 			return
 		}
 		c.ok(rule, key+"-encode-case", ecl.Pos(), "case present")
-		d, e := decodeCase(p, dc), encodeCase(p, ecl)
+		d, e := decodeCase(p, dc, name), encodeCase(p, ecl)
 		if !d.hasOffset || !e.hasOffset {
 			c.und(rule, key+"-offset-agree", ecl.Pos(), "cannot read offsets: "+d.why+" "+e.why)
 			return
@@ -660,6 +719,12 @@ func ruleMarkers(c *Ctx) {
 			}
 			return true
 		})
+		if len(hdr) == 1 {
+			// the reader demands that the text after '+' equals the whole '@' line (name and
+			// description); that holds by construction only if both lines come from the same routine
+			c.bad(rule, "fastq/quality-id line written like the id line", hdrPos[0], "only one of the two header lines is written by writeHeader: the '+' line (written when QID is set) is assembled separately, so it need not carry the same name and description as the '@' line, which the reader compares it with byte for byte — such records are rejected on read-back")
+			return
+		}
 		if len(hdr) != 2 {
 			c.und(rule, "fastq/writer-markers", wr.Pos(), fmt.Sprintf("expected 2 writeHeader call sites in Write, found %d", len(hdr)))
 			return
